@@ -174,6 +174,38 @@ pub fn asm_event(inst: &SInst, ctx: &[SInst], tag: &str) -> Value {
     }
 }
 
+/// lossless run-length encoding of a word list: [[word, count] ...]
+fn rle_words(ws: &[u32]) -> Value {
+    let mut out: Vec<(u32, u64)> = vec![];
+    for w in ws { match out.last_mut() { Some(r) if r.0 == *w => r.1 += 1, _ => out.push((*w, 1)) } }
+    Value::Array(out.iter().map(|(w, n)| json!([jw(*w), n])).collect())
+}
+/// The maximal word count: OpTypeStruct %rid with n members (all %member), n + 2 words in all - assembled by the real
+/// assembler and parsed back; words and parsed operands are recorded run-length encoded (ParserTrace!BigCode).
+pub fn asm_big_event(n: usize, rid: u32, member: u32) -> Value {
+    let inst = dr::Instruction::new(spirv::Op::TypeStruct, None, Some(rid), vec![dr::Operand::IdRef(member); n]);
+    let base = |wst: &str, words: Value, pst: &str, parsed: Value, err: Value| json!({"ev": "asmbig", "tag": "c02-maxwc", "op": 30, "rid": jw(rid), "member": jw(member), "n": n,
+        "wst": wst, "words_rle": words, "pst": pst, "parsed": parsed, "err": err});
+    match catch(|| inst.assemble()) {
+        Err(p) => base("panic", json!([]), "none", json!([]), jpanic(&p)),
+        Ok(ws) => {
+            let mut bin: Vec<u32> = HEADER.to_vec();
+            bin.extend(ws.iter());
+            let mut c = Scripted::new(vec![]);
+            match catch(|| binary::parse_words(&bin, &mut c)) {
+                Err(p) => base("ok", rle_words(&ws), "panic", json!([]), jpanic(&p)),
+                Ok(Ok(())) if c.insts.len() == 1 => {
+                    let i = &c.insts[0];
+                    let ops: Vec<u32> = i.operands.iter().map(|o| match o { dr::Operand::IdRef(x) => *x, _ => 0xdead_beef }).collect();
+                    let all_ids = i.operands.iter().all(|o| matches!(o, dr::Operand::IdRef(_)));
+                    base("ok", rle_words(&ws), "ok", json!([{"op": i.class.opcode as u32, "rt": jopt_w(i.result_type), "rid": jopt_w(i.result_id), "all_idref": all_ids, "ops_rle": rle_words(&ops)}]), json!([]))
+                }
+                Ok(other) => base("ok", rle_words(&ws), "err", json!([]), j_state(&other)),
+            }
+        }
+    }
+}
+
 // ---------------------------------------------------------------------------------------------
 // suites
 
@@ -328,6 +360,8 @@ fn suite_c02(g: &Gram, out: &mut Out, rng: &mut Rng, thorough: bool) {
             }
         }
     }
+    // the maximal word count (65535 words) and its neighbour; a small one as a control of the encoding of the event
+    for n in [65533usize, 65532, 3] { out.ev(asm_big_event(n, 1, 7)); }
 }
 
 /// A random well-formed word stream: header + n conforming instructions (type declarations the
@@ -767,6 +801,15 @@ pub fn drive(args: &[String]) {
             c10_random(&mut out, &mut rng, n);
             c10_defops(&g, &mut out, &mut rng);
             c10_asm(&mut out, &mut rng);
+        }
+        "big-replay" => {
+            let f = std::io::BufReader::new(std::fs::File::open(arg(args, "--histories").expect("--histories")).unwrap());
+            for line in f.lines() {
+                let line = line.unwrap();
+                if line.trim().is_empty() { continue; }
+                let v: Value = serde_json::from_str(&line).unwrap();
+                out.ev(asm_big_event(v["big"]["n"].as_u64().unwrap() as usize, unw(&v["big"]["rid"]), unw(&v["big"]["member"])));
+            }
         }
         "asm-replay" => {
             let f = std::io::BufReader::new(std::fs::File::open(arg(args, "--histories").expect("--histories")).unwrap());
